@@ -10,6 +10,8 @@ REALS = ("ValueType is modelled by exact reals (type R): every 'equals its defin
          "the size and growth of IEEE rounding error is NOT decided by this check")
 
 UNITS = {
+    "highest_lowest_index": dict(tpl="highest_lowest_index.rs.tpl", doc="methods::{HighestIndex, LowestIndex}"),
+    "highest_lowest": dict(tpl="highest_lowest.rs.tpl", doc="methods::{Highest, Lowest, HighestLowestDelta}"),
     "derived_window": dict(tpl="derived_window.rs.tpl", doc="methods::{LinearVolatility, Vidya}: windows over one-step changes"),
     "candle_methods": dict(tpl="candle_methods.rs.tpl", doc="methods::{TR, HeikinAshi, ADI} on an arbitrary dyn OHLCV"),
     "ohlcv": dict(tpl="ohlcv.rs.tpl", doc="core::OHLCV provided methods, Candle accessors, Source"),
